@@ -1,12 +1,14 @@
 (* C02 - Exact step set.  Full statement: the boolean predicate P_C02 of harness/monitors.py (demanded = executed,
    exactly once, strictly increasing, inside [0, until)), evaluated on every recorded trace.
-   Proved here (C02_partial): the step begun is the simulator's progress and its earliest queued step, nothing queued
-   or in flight lies in a simulator's past, progress never moves backwards, and the "already progressed" error is
-   unreachable.  Missing for the full statement: (i) strict increase across the whole run (needs the strict variant of
-   the lower-bound invariant relative to last_step), (ii) "every demanded time is executed" (needs C05 progress). *)
+   Proved here: C02_strictly_increasing - the steps of every simulator are begun in strictly increasing (tuple) order over
+   the whole run, hence no time is executed twice (invariants Nx/Kx/ND of Sched/Strict.v, established by the input guard);
+   the step begun is the simulator's progress and its earliest queued step; nothing queued or in flight lies in a
+   simulator's past; progress never moves backwards; the "already progressed" error is unreachable.
+   Missing for the full statement (C02_partial): "every demanded time is executed" and "only demanded times are executed"
+   (the provenance of queue entries is not in the model); both are part of P_C02 on the implementation traces. *)
 From Coq Require Import ZArith List Bool Arith.
 Import ListNotations.
-From MV Require Import Time.Spec Sched.Timing Sched.Inv Sched.Init Sched.Wle Sched.Main Sched.Guards Sched.Final.
+From MV Require Import Time.Spec Sched.Timing Sched.Inv Sched.Init Sched.Wle Sched.Main Sched.Guards Sched.Strict Sched.Final Static.Groups Static.Connect Static.Build Sched.Plane Sched.Link Sched.Certify.
 Open Scope Z_scope.
 
 Theorem C02_partial_begin_is_progress : forall st, static_ok st -> forall s i t m s',
@@ -29,3 +31,20 @@ Theorem C02_partial_never_already_progressed : forall st, static_ok st -> forall
   reached st s -> apply st s (EvBegin i t m) <> Err (EPast i).
 Proof. exact C05_no_past. Qed.
 Print Assumptions C02_partial_never_already_progressed.
+
+Theorem C02_strictly_increasing : forall st, static_ok st -> static_ok2 st ->
+  forall evs l p q j t m u m', run st (init_state st) evs = Ok l ->
+  (p < q)%nat -> nth_error evs p = Some (EvBegin j t m) -> nth_error evs q = Some (EvBegin j u m') -> tlt t u = true.
+Proof. exact certified_strictly_increasing. Qed.
+Print Assumptions C02_strictly_increasing.
+
+(* both premises are decidable per scenario and checked on every generated scenario *)
+Theorem C02_premises_certified : forall fuel sc st dt t anc,
+  prepare fuel sc = Prepared st dt t anc -> check_static sc t anc = true -> check_static2 sc t = true ->
+  static_ok st /\ static_ok2 st.
+Proof.
+  intros fuel sc st dt t anc H C1 C2. split; [eapply prepared_static_ok; eauto|].
+  unfold prepare in H. destruct (build (sc_gt sc) (sc_group sc) (sc_conns sc)) as [t0| |]; try discriminate.
+  destruct (ancestors fuel t0) as [[a0|]|]; try discriminate. injection H as <- _ <- <-. apply check_static2_sound. exact C2.
+Qed.
+Print Assumptions C02_premises_certified.
